@@ -202,6 +202,9 @@ Definition norm2 (v : tensor F) : F := sqrtF (sumsq v).
 Definition normalize (v : tensor F) : tensor F :=
   tabulate (shape v) (fun J => fdiv Op (tget v J) (norm2 v)).
 
+(* "l is the result of a normalisation" *)
+Definition is_normalized (l : tensor F) : Prop := exists v, l = normalize v.
+
 (* T.tensordot(X, u, axes=((0,), (0,)));  also T.dot(T.transpose(Y), t) for a matrix Y *)
 Definition xty (X : tensor F) (u : list F) : tensor F :=
   tabulate (sshape X) (fun J => fsumn (nsamp X) (fun i => fmul Op (tget X (i :: J)) (nth i u (f0 Op)))).
@@ -219,8 +222,6 @@ Fixpoint mode_sweep (Z : tensor F) (ls : list (tensor F)) (modes : list nat) : l
   end.
 
 Definition col0 (Y : tensor F) : list F := map (fun i => tget Y [i; 0]) (seq 0 (nsamp Y)).
-Definition yscore_of (Y q : tensor F) : list F :=
-  map (fun i => fsumn (nth 1 (shape Y) 0) (fun o => fmul Op (tget Y [i; o]) (tget q [o]))) (seq 0 (nsamp Y)).
 
 Record istate := mkI { i_ls : list (tensor F); i_t : list F; i_q : tensor F; i_u : list F }.
 (* one pass of the body: Z, (first pass only) the SVD initialisation, the mode updates, the X scores,
@@ -231,7 +232,7 @@ Definition inner_step (X Y : tensor F) (ls0 : list (tensor F)) (u : list F) (fir
   let ls2 := if 2 <=? ndim Z then mode_sweep Z ls1 (seq 0 (length ls1)) else [normalize Z] in
   let t := scores X ls2 in
   let q := normalize (xty Y t) in
-  mkI ls2 t q (yscore_of Y q).
+  mkI ls2 t q (yscore Y q).
 (* T.norm(old_comp_Y_factors_0 - comp_Y_factors_0) *)
 Definition ldist (n : nat) (a b : list F) : F :=
   sqrtF (fsumn n (fun i => let dlt := fsub Op (nth i a (f0 Op)) (nth i b (f0 Op)) in fmul Op dlt dlt)).
@@ -288,6 +289,10 @@ Definition reg_fit (n_iter_max : nat) (w0 : P) : res reg_stored :=
   | (_, None, _) => Err        (* n_iter_max = 0: weight_tensor_ is unbound, the source raises *)
   end.
 End RegLoop.
+
+(* the two instances of `rebuild`: blocks = (weights, factors) resp. (core, factors) *)
+Definition cp_rebuild (b : tensor F * list (tensor F)) : tensor F := cp_to_tensor (fst b) (snd b).
+Definition tucker_rebuild (b : tensor F * list (tensor F)) : tensor F := tucker_to_tensor (fst b) (snd b).
 
 (* helpers for statements: adding a constant tensor to every sample; re-ordering samples *)
 Definition shift (X c : tensor F) : tensor F :=
